@@ -272,3 +272,54 @@ def _local_time_scan(a, pre):
         unix = (a["day0"] + k - E) * 86400 + ds
         out.append([int(v) for v in H.local_time(unix, off, us)])
     return {"k": "arr", "v": out}
+
+
+# ---------------------------------------------------------------- C04
+_CK = (("y", "years"), ("mo", "months"), ("w", "weeks"), ("d", "days"), ("h", "hours"), ("mi", "minutes"),
+       ("s", "seconds"), ("us", "microseconds"))
+
+
+def ckw(c, keys=_CK):
+    return {name: c[k] for k, name in keys if c[k]}
+
+
+@op("add_cal")
+def _add_cal(a, pre):
+    c, entry = a["c"], a["entry"]
+    x = pre[0]
+    if entry == "add":
+        return x.add(**ckw(c))
+    if entry == "subtract":
+        return x.subtract(**ckw(c))
+    d = P().Duration(**ckw(c))
+    if entry == "plus_dur":
+        return x + d
+    if entry == "radd_dur":
+        return d + x
+    if entry == "minus_dur":
+        return x - d
+    if entry == "plus_neg_dur":
+        return x + (-d)
+    raise ValueError(entry)
+
+
+@op("add_cal_date")
+def _add_cal_date(a, pre):
+    c, entry = a["c"], a["entry"]
+    x = pre[0]
+    kw = ckw(c, _CK[:4])
+    if entry == "add":
+        return x.add(**kw)
+    if entry == "subtract":
+        return x.subtract(**kw)
+    if entry in ("plus_td", "minus_td"):
+        td = _dt.timedelta(days=c["d"] + 7 * c["w"])
+        return x + td if entry == "plus_td" else x - td
+    d = P().Duration(**kw)
+    if entry == "plus_dur":
+        return x + d
+    if entry == "minus_dur":
+        return x - d
+    if entry == "plus_neg_dur":
+        return x + (-d)
+    raise ValueError(entry)
